@@ -166,7 +166,13 @@ def roundtrip(obj, opts, to_stream, info_classes):
         for lname, L in loaders():
             evals += 1
             try:
-                back = yaml.load(text, Loader=L)
+                src = text
+                if to_stream:
+                    # written to a stream, read back from a stream whose read() returns pieces (size: a pure function of the text)
+                    from checks.c07 import ChunkedText
+                    from vlib.runner import h64
+                    src = ChunkedText(text, [[1, 3, 64, 1000, 4096, 100000][h64(text) % 6]])
+                back = yaml.load(src, Loader=L)
             except RecursionError:
                 raise
             except Exception as e:
@@ -258,7 +264,7 @@ def shared_scalar_cases():
 
 
 def stream_of_temporaries_cases():
-    return st.tuples(st.lists(gv.blueprints(max_leaves=6), min_size=3, max_size=8), st.sampled_from([{}, {"default_flow_style": True}, {"explicit_start": True}]))
+    return st.tuples(st.lists(gv.blueprints(max_leaves=6), min_size=3, max_size=8), st.one_of(st.sampled_from([{}, {"default_flow_style": True}, {"explicit_start": True}]), gv.dump_options(), gv.dump_options()))
 
 
 def eval_temporaries(case):
@@ -303,7 +309,7 @@ def arms(tier):
         Arm("scalar", eval_scalar, scalar_cases, quick=20000, thorough=900000),
         Arm("tz", eval_value, tz_cases, quick=400, thorough=20000),
         Arm("shared-scalar-key", eval_value, shared_scalar_cases, quick=1500, thorough=50000),
-        Arm("temporaries", eval_temporaries, stream_of_temporaries_cases, quick=800, thorough=30000),
+        Arm("temporaries", eval_temporaries, stream_of_temporaries_cases, quick=2500, thorough=80000),
     ]
 
 
